@@ -1099,6 +1099,8 @@ static int parse_int_decimal(struct cat_object *self, int64_t *ret)
                 } else {
                         if (is_valid_dec_char(ch) != 0) {
                                 ok = 1;
+                                if (val > (INT64_MAX - (ch - '0')) / 10)
+                                        return -1;
                                 val *= 10;
                                 val += ch - '0';
                         } else {
@@ -1129,6 +1131,8 @@ static int parse_uint_decimal(struct cat_object *self, uint64_t *ret)
 
                 if (is_valid_dec_char(ch) != 0) {
                         ok = 1;
+                        if (val > (UINT64_MAX - (uint64_t)(ch - '0')) / 10)
+                                return -1;
                         val *= 10;
                         val += ch - '0';
                 } else {
@@ -1168,6 +1172,8 @@ static int parse_num_hexadecimal(struct cat_object *self, uint64_t *ret)
                 } else if (state >= 2) {
                         if (is_valid_hex_char(ch) != 0) {
                                 state = 3;
+                                if ((val >> 60) != 0)
+                                        return -1;
                                 val <<= 4;
                                 val += convert_hex_char_to_value(ch);
                         } else {
